@@ -342,6 +342,20 @@ func init() {
 			sweep(c, r, s, "opreturn")
 		}
 
+		c.Phase("opreturn-first-data-byte") // every value of the first byte after a top-level OP_RETURN, four prefixes, three tails
+		n = 0
+		for b := 0; b < 256; b++ {
+			for _, pre := range [][]byte{{}, {0x00}, {0x51, 0x75}, {0x63, 0x51, 0x68}} {
+				for _, tail := range [][]byte{{}, {0x01}, {0xac, 0x4c}} {
+					if !next() {
+						continue
+					}
+					s := append(append(append(append([]byte{}, pre...), 0x6a, byte(b)), tail...))
+					script(c, &c13Script{Script: s, Class: "opreturn-first-data-byte"})
+				}
+			}
+		}
+
 		// ---- random bytes -----------------------------------------------
 		c.Phase("random-bytes")
 		nb := 3000
@@ -790,6 +804,58 @@ func c13JudgeScript(c *mon.Ctx, in *c13Script) {
 				var uerr error
 				if c.Try("interpreter.(*DefaultOpcodeParser).Unparse", func() { un, uerr = parser.Unparse(parsed) }) && uerr == nil && un != nil && bytes.Equal(*un, s) {
 					c.Count("trunc:parse-after-opreturn-roundtrips")
+				}
+			}
+		}
+	}
+	// The parser as the engine configures it when no transaction is supplied
+	// (ErrorOnCheckSig): it differs from the plain one only in refusing scripts
+	// that contain a signature / sequence-lock OPCODE. What follows a top-level
+	// OP_RETURN is data, not opcodes.
+	{
+		depth, balanced, needsTx := 0, true, false
+	scan:
+		for _, t := range toks {
+			if t.Push {
+				continue
+			}
+			switch t.Op {
+			case 0x63, 0x64:
+				depth++
+			case 0x68:
+				if depth--; depth < 0 {
+					balanced = false
+					break scan
+				}
+			case 0x6a:
+				if depth == 0 {
+					break scan
+				}
+			case 0xac, 0xad, 0xae, 0xaf, 0xb2:
+				needsTx = true
+			}
+		}
+		var plainErr, strictErr error
+		var plain, strict interpreter.ParsedScript
+		strictParser := interpreter.DefaultOpcodeParser{ErrorOnCheckSig: true}
+		if balanced && c.Try("interpreter.(*DefaultOpcodeParser).Parse", func() {
+			plain, plainErr = parser.Parse(scr)
+			strict, strictErr = strictParser.Parse(scr)
+		}) && plainErr == nil {
+			switch {
+			case needsTx:
+				c.Count("parse:strict:script-needs-tx")
+			case strictErr != nil:
+				c.Violationf("C13:parse:strict-parser-rejects", "Parse with ErrorOnCheckSig rejects %s (%v) although no signature or sequence-lock opcode occurs before the end / a top-level OP_RETURN; the plain parser accepts it", c13Short(s), strictErr)
+			default:
+				var a, b *bscript.Script
+				var ea, eb error
+				if c.Try("interpreter.(*DefaultOpcodeParser).Unparse", func() { a, ea = parser.Unparse(plain); b, eb = strictParser.Unparse(strict) }) {
+					if ea != nil || eb != nil || a == nil || b == nil || !bytes.Equal(*a, *b) {
+						c.Violationf("C13:parse:strict-parser-differs", "Unparse(Parse(%s)) differs between the plain parser and the one with ErrorOnCheckSig (%v / %v)", c13Short(s), ea, eb)
+					} else {
+						c.Count("parse:strict:agrees")
+					}
 				}
 			}
 		}
